@@ -119,7 +119,7 @@ def overlay_db_agrees(res, db, root, probes):
             r = fn(d, *a)
             return str(r) if isinstance(r, bool) else nodes_txt(list(r))
         except Exception as e:  # noqa
-            return "exn " + type(e).__name__
+            return "exn " + common.exc_name(e)
     for name, fn, args in [("get_trie_nodes", get_trie_nodes, [(root,)])] + \
             [(n, f, [(root, k) for k in probes[:6]]) for n, f in (("get_branch", get_branch), ("check_if_branch_exist", check_if_branch_exist),
                                                                   ("get_witness_for_key_prefix", get_witness_for_key_prefix))]:
@@ -143,7 +143,7 @@ def raw_level_partial(res, db, root, probes, rng):
         except KeyError:
             return "exn KeyError"
         except Exception as e:  # noqa
-            return "exn " + type(e).__name__
+            return "exn " + common.exc_name(e)
     keys = sorted(db.keys())
     if not keys:
         return
@@ -209,7 +209,7 @@ def run_case(case):
             ok = if_branch_valid(common.vary(nodes), rt, key, claimed)
             out = "True" if ok else "False"
         except Exception as e:  # noqa
-            name = type(e).__name__
+            name = common.exc_name(e)
             ok, out = False, "exn " + (name if name in ("AssertionError", "KeyError", "InvalidNode", "ValidationError") else "Other")
         res.emit("bin.valid %s %s %s %s" % (hx(rt), hx(key), "None" if claimed is None else hx(claimed), nodes_txt(nodes)), out)
         res.tags.add("valid:%s:%s" % (what, "accepted" if ok else "rejected"))
@@ -226,7 +226,7 @@ def run_case(case):
         except InvalidKeyError:
             br, out = None, "exn InvalidKeyError"
         except Exception as e:  # noqa
-            br, out = None, "exn " + type(e).__name__
+            br, out = None, "exn " + common.exc_name(e)
             res.fail("get-branch-raised", "get_branch(%r) raised %r" % (k, e))
         res.emit("bin.branch 0 %s" % hx(k), out)
         res.emit("bin.rbranch %s %s" % (hx(root), hx(k)), out)
@@ -278,7 +278,7 @@ def run_case(case):
         except InvalidKeyError:
             w, out = None, "exn InvalidKeyError"
         except Exception as e:  # noqa
-            w, out = None, "exn " + type(e).__name__
+            w, out = None, "exn " + common.exc_name(e)
             res.fail("witness-raised", "get_witness_for_key_prefix(%r) raised %r" % (k, e))
         res.emit("bin.witness 0 %s" % hx(k), out)
         res.emit("bin.rwitness %s %s" % (hx(root), hx(k)), out)
